@@ -326,8 +326,11 @@ def main():
     ev = {'property_id': args.pid, 'tier': args.tier, 'seed': seed, 'level': 'proof', 'coverage': cov,
           'assumptions': list(getattr(mod, 'ASSUMPTIONS', [])), 'wall_s': round(time.time() - ctx.t0, 2),
           'violations': len(new_viols) + (1 if exit_code and not new_viols else 0)}
-    os.makedirs(os.path.join(VERIF, 'evidence'), exist_ok=True)
-    with open(os.path.join(VERIF, 'evidence', f"{args.pid}.json"), 'w') as f:
+    # runs against a deliberately changed tree (tools/seed_*.py, tools/refac_*.py) write their record elsewhere, so that the evidence
+    # directory only ever holds records of runs on the tree as it is
+    evdir = os.environ.get('VERIF_EVIDENCE_DIR') or os.path.join(VERIF, 'evidence')
+    os.makedirs(evdir, exist_ok=True)
+    with open(os.path.join(evdir, f"{args.pid}.json"), 'w') as f:
         json.dump(ev, f, indent=1, default=str)
     log(f"{args.pid} {args.tier}: theorems={nthm} discharged={discharged} cases={cov['evaluations']} nontrivial={cov['distinct_nontrivial']} "
         f"disagreements={len(disagreements)} violations={len(new_viols)} known={len(printed)} wall={ev['wall_s']}s exit={exit_code}")
